@@ -352,7 +352,8 @@ static int print_f(void (*printchar_handler)(void *d, int c),
     while (prefix_len--)
         printchar_handler(printchar_data, *prefix++);
 
-    if (ops & OPS_FLAG_ZERO_PAD)
+    /* the - flag overrides the 0 flag */
+    if ((ops & OPS_FLAG_ZERO_PAD) && !(ops & OPS_FLAG_LEFT_ALIGN))
     {
         pc += pad_count;
         while (pad_count--)
